@@ -3,6 +3,8 @@ package main
 import (
 	"errors"
 	"io"
+	"os"
+	"syscall"
 
 	"github.com/oasisprotocol/ed25519/zzsimrt"
 )
@@ -18,7 +20,13 @@ const (
 	EEOF
 	EUnexpected
 	ESentinel
+	EAgain    // syscall.EAGAIN: Temporary() and Timeout() are true
+	EIntr     // syscall.EINTR: Temporary() is true
+	EDeadline // os.ErrDeadlineExceeded: Timeout() and Temporary() are true
+	nErrKinds
 )
+
+var errKindNames = []string{"", "err_eof", "err_unexpected_eof", "err_sentinel", "err_eagain", "err_eintr", "err_deadline"}
 
 func devErr(k int) error {
 	switch k {
@@ -28,6 +36,12 @@ func devErr(k int) error {
 		return io.ErrUnexpectedEOF
 	case ESentinel:
 		return errSentinel
+	case EAgain:
+		return syscall.EAGAIN
+	case EIntr:
+		return syscall.EINTR
+	case EDeadline:
+		return os.ErrDeadlineExceeded
 	}
 	return nil
 }
@@ -66,7 +80,10 @@ type DevPlan struct {
 	FailAt   int  `json:"failat,omitempty"`
 	FailKind int  `json:"failkind,omitempty"`
 	FailWith bool `json:"failwith,omitempty"`
-	Trip     bool `json:"trip,omitempty"` // tripwire: any Read at all is an event
+	// Recover: the failure is transient - the error is reported once and the
+	// following reads deliver data again (a device that was interrupted).
+	Recover bool `json:"recover,omitempty"`
+	Trip    bool `json:"trip,omitempty"` // tripwire: any Read at all is an event
 }
 
 // DevLog is what the device observed during one call.
@@ -78,6 +95,7 @@ type DevLog struct {
 	ErrKind   int    `json:"errkind,omitempty"` // error kind handed to the caller (0 = none)
 	ErrAtByte int    `json:"erratbyte,omitempty"`
 	ErrWith   bool   `json:"errwith,omitempty"`
+	Recovered bool   `json:"recovered,omitempty"` // bytes were delivered after the error
 	Stalls    int    `json:"stalls,omitempty"`
 	Shorts    int    `json:"shorts,omitempty"`
 	Bytes     []byte `json:"-"`
@@ -89,6 +107,7 @@ type Device struct {
 	idx     int // index into plan.Reads (advances per non-stall Read)
 	stalled int
 	pending int // error to deliver on the next Read
+	fired   bool
 	sticky  int
 	block   [16]byte
 }
@@ -150,10 +169,15 @@ func (d *Device) Read(p []byte) (int, error) {
 		return give(0, devErr(d.sticky))
 	}
 	if d.pending != 0 {
-		d.sticky = d.pending
-		d.log.ErrKind = d.pending
+		k := d.pending
+		d.pending = 0
+		d.fired = true
+		if !d.plan.Recover {
+			d.sticky = k
+		}
+		d.log.ErrKind = k
 		d.log.ErrAtByte = d.log.Delivered
-		return give(0, devErr(d.pending))
+		return give(0, devErr(k))
 	}
 	if len(p) == 0 {
 		return give(0, nil)
@@ -177,7 +201,7 @@ func (d *Device) Read(p []byte) (int, error) {
 		n = f.Short
 	}
 	failing := false
-	if d.plan.FailAt > 0 {
+	if d.plan.FailAt > 0 && !d.fired {
 		if rem := d.plan.FailAt - 1 - d.log.Delivered; n >= rem {
 			n = rem
 			failing = true
@@ -191,13 +215,19 @@ func (d *Device) Read(p []byte) (int, error) {
 	}
 	d.log.Bytes = append(d.log.Bytes, p[:n]...)
 	d.log.Delivered += n
+	if d.fired && n > 0 && !failing {
+		d.log.Recovered = true
+	}
 	if failing {
 		k := d.plan.FailKind
 		if k == 0 {
 			k = ESentinel
 		}
 		if n == 0 || d.plan.FailWith {
-			d.sticky = k
+			d.fired = true
+			if !d.plan.Recover {
+				d.sticky = k
+			}
 			d.log.ErrKind = k
 			d.log.ErrAtByte = d.log.Delivered
 			d.log.ErrWith = n > 0
